@@ -213,6 +213,14 @@ func New(model *openfgav1.AuthorizationModel) (*TypeSystem, error) {
 				r.TypeInfo.DirectlyRelatedUserTypes = metadata.GetDirectlyRelatedUserTypes()
 			}
 
+			for _, ref := range r.GetTypeInfo().GetDirectlyRelatedUserTypes() {
+				// A userset reference must name its relation: the model graph builder below creates no
+				// node for `type#` and dereferences the missing node.
+				if _, isRelation := ref.GetRelationOrWildcard().(*openfgav1.RelationReference_Relation); isRelation && ref.GetRelation() == "" {
+					return nil, &InvalidRelationError{ObjectType: typeName, Relation: relation, Cause: ErrInvalidRelation}
+				}
+			}
+
 			tdRelations[relation] = r
 			ttuRelations[typeName][relation] = flattenUserset(rewrite)
 		}
